@@ -211,7 +211,7 @@ def _build(d, depth):
 def strategy(tier):
     depth = 4 if tier == 'quick' else 5
     return decoded(lambda d: _build(d, depth), min_size=24,
-                   max_size=120 if tier == 'quick' else 300)
+                   max_size=300 if tier == 'quick' else 500)
 
 
 def budget(tier):
